@@ -13,6 +13,8 @@ def check_logs(scratch):
     for p in sorted(glob.glob(os.path.join(scratch, "*.log"))):
         with open(p, "rb") as f:
             for line in f:
+                if not line.endswith(b"\n"):
+                    continue  # torn last line of a worker that died
                 parts = line.rstrip(b"\n").split(b" ")
                 if len(parts) != 4:
                     continue  # torn last line of a worker that died
